@@ -8,7 +8,7 @@ from props.common import sub_rng, diff_runs, replay_generic, corpus_cases
 
 replay = replay_generic
 OPS = ['readnear', 'writenear', 'rmnear', 'lit', 'alias', 'read0', 'readlast', 'readbad', 'write0', 'writebad', 'len', 'app1', 'app2', 'rm0', 'rmlast', 'rmbad', 'rmfrac', 'rmneg', 'rmstr',
-       'elem', 'param', 'readfrac', 'readstr', 'readnumstr', 'appelem', 'litelem', 'eqalias']
+       'elem', 'param', 'readfrac', 'readstr', 'readnumstr', 'appelem', 'litelem', 'eqalias', 'readhuge', 'writehuge', 'rmhuge']
 
 
 def fmt_num(x):
@@ -33,6 +33,10 @@ class PyModel:
     def dump(self):
         for n in 'abc':
             self.out.append(fmt(self.v[n]))
+
+
+import itertools as _it
+_huge = _it.count()
 
 
 def step(m, k, op, tgt, other):
@@ -79,6 +83,13 @@ def step(m, k, op, tgt, other):
         m.v[other] = list(A) + [val]; return '%s = %s(%s, %d);' % (other, APPEND, tgt, val)
     if op == 'app2':
         m.v[other] = list(A) + [val, val + 1, val + 2]; return '%s = %s(%s, %d, %d, %d);' % (other, APPEND, tgt, val, val + 1, val + 2)
+    if op in ('readhuge', 'writehuge', 'rmhuge'):
+        # integral indexes far outside the array, chosen so that truncation to 8, 16, 31, 32 or 63 bits would land inside it
+        big = ['4294967296', '4294967297', '0 - 4294967295', '65536', '256', '2147483648', '0 - 2147483648', '2 ** 53', '2 ** 62', '0 - 2 ** 63', '2 ** 63', '2 ** 64', '1e18', '18446744073709551616'][next(_huge) % 14]
+        m.err = True
+        if op == 'readhuge': return '%s %s[%s];' % (PRINT, tgt, big)
+        if op == 'writehuge': return '%s[%s] = %d;' % (tgt, big, val)
+        return '%s = %s(%s, %s);' % (other, REMOVE, tgt, big)
     if op == 'appelem':
         # an array appended as an element is the same array (a reference), not a copy
         m.v[other] = list(A) + [m.v['c']]; return '%s = %s(%s, c);' % (other, APPEND, tgt)
